@@ -42,6 +42,9 @@ type V struct {
 	// MayDec (UBJSON): this integer sits in a typed unsigned container that holds
 	// a value above MaxInt64, so it may arrive as its decimal string.
 	MayDec bool
+	// Struct marks an object that stands for a Go struct (fold model): its
+	// members address struct fields, unknown members may be added to it.
+	Struct bool
 	// Lit (JSON only): the number literal this node was written as / read from.
 	Lit string
 }
